@@ -47,6 +47,47 @@ CLAIMS = {
             "invalidate_attrs (union with '*', delattr dispatch, per-dependant handler, propagation through value-less dependants) and "
             "both sources of the invalidation map.",
             "must-follow (typestate) analysis over abstract event traces + structural AST rules"),
+    "C05": ("Structural clauses only (the value-level equivalence with a reference model is not decidable statically and is not claimed): "
+            "_if=False is a pure `return self`; sentinel values are no-ops in mutate_attr / mutate_value; the _inplace flag reaches the "
+            "behaviour (receiver returned and raw-written iff _inplace, fresh object otherwise) for all 19 helpers and 3 call shapes; every "
+            "declared helper parameter is live; obj.a = v and with_a(v, _inplace=True) share one prepare->mutate_attr skeleton; "
+            "update_/transform_ reach the raw write only through with_attr, reset_/reset only through the __delattr__ closure.",
+            "flag-forwarding / liveness / trace-skeleton comparison by abstract interpretation"),
+    "C06": ("Structural clauses only (container contents/order equality is not claimed): no truthiness test on an element, key or index "
+            "anywhere on the element-helper paths, no truthiness test of the container in extractors/inserters; exhaustive decision tables "
+            "of the three inserters (append / insert(index, item) / [index]= / discard+add with the extractor's index) and of the by_index "
+            "tri-state; _mutate_collection always performs the insertion after the extraction and re-raises unchanged; extractors raise "
+            "IndexError/ValueError/KeyError for missing targets; prepare_item promotion table.",
+            "taint (truthiness-of-element) analysis + decision-table extraction by abstract interpretation"),
+    "C09": ("Structural clauses only (resolved constructor values per hierarchy are not claimed): __post_init__ at one call site, own "
+            "class only, after all attribute writes / parent constructors / overflow store and before the initialising flag is removed; "
+            "guards of every attribute write in the local loop (init-enabled, owned here, not the overflow attribute); parent constructors "
+            "over the whole MRO with forwarded keywords popped; defaults looked up relative to the instance's class and tested by identity, "
+            "never truthiness; exhaustive truth table of the overflow filter; builder chain of the generated signature.",
+            "event-order and guard analysis by abstract interpretation + finite truth tables over condition ASTs"),
+    "C10": ("Structural clauses only (reflexivity/symmetry/transitivity over values and repr text are not claimed): forall-loop polarity "
+            "of __eq__ (only `return False` inside the loop, every True path carries an equality verdict for each visited compare-enabled "
+            "attribute), class-compatibility test returns False, three-argument getattr with MISSING in __eq__ and repr, cycle test first "
+            "in object_repr, attribute list from attrs.items() filtered by Attr.repr, __deepcopy__ drops no __dict__ entry.",
+            "loop-polarity rule + per-path verdict analysis by abstract interpretation"),
+    "C12": ("The descriptor protocol is a finite state machine over boolean options and slot presence: each of "
+            "spec_property.__get__/__set__/__delete__ and classproperty.__get__/__set__/__delete__ is interpreted once per feasible truth "
+            "assignment of its conditions and the extracted table (conditions -> returned value, slot store/delete, callbacks invoked, "
+            "prepare/type-check applied) is compared exhaustively with an oracle written from the statement (up to 2^14 assignments); "
+            "single-step tables compose because the only state is the slot. getter()/setter()/deleter() forward the protocol options.",
+            "exhaustive decision-table extraction by abstract interpretation vs. protocol oracle"),
+    "C18": ("Alias.__get__/__set__/__delete__ decision tables over {instance None, bound, passthrough, override present, target/parent "
+            "missing, transform, fallback given, fallback immutable, last path element is an item} compared exhaustively with the oracle "
+            "(override wins, transform applied to the target only, fallback handed out as a fresh copy, passthrough writes exactly one "
+            "target write and none on the override slot and vice versa); path parser acceptance; DeprecatedAlias warns then delegates "
+            "unchanged.",
+            "exhaustive decision-table extraction by abstract interpretation vs. protocol oracle"),
+    "C20": ("Schedules are not enumerated; decided is the discipline that makes them irrelevant: copyreg.dispatch_table has exactly two "
+            "writers (install/delete), every use of _modules_copyable is a `with` context, the extracted transition tables of "
+            "__enter__/__exit__ over refcount 0..3 x patched x entry-present equal the oracle, an inductive invariant (patched <=> entry is "
+            "ours; refcount 0 => not ours) is preserved by the extracted tables, every counter/table access happens while self.lock is "
+            "held, the lock object is never replaced, and the singleton's state is initialised once under a creation lock.",
+            "lockset + who-may-write rules + inductive invariant over transition tables extracted by abstract interpretation"),
 }
 
 NOT_YET = "check under construction in this round; see DESIGN.md"
